@@ -39,10 +39,9 @@ Proved at full strength (for all d, p ≥ 1, d + p ≤ 256, all payload sizes th
 * `C07_parity_loss_harmless` with parity skipped the encoder emits none and the ids advance identically; a shard set that
                               holds data packets only never makes `decode` return anything (data packets reach KCP directly
                               in `kcpInput`, before and regardless of `decode`).
-Not proved: a completeness statement over whole histories ("if d packets of a group arrive while the group is within the
-horizon, the d-th call is in the situation of `C07_dec_any_k`") — `C07_dec_any_k` assumes the shard set holds the earlier
-packets; that it does is what `Lemmas/FecDec.decode_preserves` maintains, but the link to the discard horizon is left to the
-correspondence runs and the `fec-horizon` oracle.
+Completeness over whole histories ("if d packets of a group arrive while the group is within the horizon, the d-th call
+is in the situation of `C07_dec_any_k`", the link between `Lemmas/FecDec.decode_preserves` and the discard horizon) is
+proved in `Props/C07Hist` (`C07_hist_any_k`, `C07_hist_tracks`, `C07_hist_once`, `C07_hist_window`).
 -/
 import KcpVerif.Lemmas.FecEnc
 import KcpVerif.Lemmas.FecDec
